@@ -251,7 +251,9 @@ def run(ctx: RunCtx) -> None:
         kind = ["pipe", "unix", "tcp"][ch.choose(3, "transport")]
         buggify = bool(ch.choose(2, "buggify"))
         own = ShmSegment.create(65536 + 8192) if ch.choose(2, "own_segment") else None
-        host.segments["foreign_segment"] = bytearray(b"\x7fELF" + bytes(5000))
+        # a segment of the machine that is not a vgi-rpc one: sometimes big, sometimes smaller than the 24-byte fixed header
+        foreign_len = [5000, 8, 23, 24, 1][ch.choose(5, "foreign.len")]
+        host.segments["foreign_segment"] = bytearray((b"\x7fELF" + bytes(5000))[:foreign_len])
         nsteps = 2 + ch.choose(5, "nsteps")
         plan = []
         for i in range(nsteps):
